@@ -179,7 +179,7 @@ int main()
 
 
 def gen_stream_script(rnd, mode):
-    """mode 'r': containers appended whole (decompression side); 'w': bytes appended (encoder side)"""
+    """mode 'r': containers appended whole (decompression side); 'w': bytes appended (encoder side); 'm': both mixed"""
     ops = ['unew 0 0']
     g = 0; p = 0; fs = (1 << 63) - 1; bs = (1 << 63) - 1; dl = 0x20000; aborted = False; dropped = False
     if rnd.random() < 0.7:
@@ -187,9 +187,9 @@ def gen_stream_script(rnd, mode):
     for _ in range(NOPS):
         r = rnd.random()
         can_append = aborted or (p - g) < bs
-        if mode == 'r': can_append = aborted or ((p - g) & 0xffffffff) < bs
+        if mode != 'w': can_append = can_append and (aborted or ((p - g) & 0xffffffff) < bs)
         if r < 0.30 and can_append:
-            if mode == 'r':
+            if mode == 'r' or (mode == 'm' and rnd.random() < 0.5):
                 n = rnd.choice([0, 1, 5, 100, 4096, rnd.randint(1, 3000)])
                 ops.append('ulc %d %d' % (n, rnd.randint(0, 255))); p += n
             else:
@@ -214,7 +214,7 @@ def gen_stream_script(rnd, mode):
             ops.append('useekg %d 1' % off); g = min(g + off, fs)
         elif r < 0.80:
             ops.append('udrop 0 0'); dropped = True
-        elif r < 0.85 and mode == 'w':
+        elif r < 0.85 and mode != 'r':
             ops.append('unext 0 0')
         elif r < 0.90:
             # declared end: at the put position (what the workers do) or a little beyond the get position
@@ -256,7 +256,7 @@ def scripts():
     rnd = random.Random(20260928)
     out = []
     for i in range(NSCRIPTS):
-        out.append(gen_stream_script(rnd, 'r' if i % 2 else 'w'))
+        out.append(gen_stream_script(rnd, ('w', 'r', 'm')[i % 3]))
         out.append(gen_queue_script(rnd))
     return out
 
